@@ -240,7 +240,30 @@ func execC12(c CaseC12) *Outcome {
 			}
 		}
 	}
-	// a valid message afterwards on the same route must still be handled
+	// the untouched original of the mutated message, sent afterwards by the same route, must still be
+	// handled: the entries it announces become visible
+	switch c.Route {
+	case "topic":
+		cl.W.InjectTopic(env.V, cl.Addr, base)
+	default:
+		cl.W.InjectDirect(env.X, env.V, base)
+	}
+	v := env.victim()
+	if err := cl.W.WaitClaim("the entries announced by the untouched original, sent after the mutated copy, become visible", func() bool {
+		for _, h := range heads {
+			if !world.Has(v, h.Hash.String()) {
+				return false
+			}
+		}
+		return cl.W.Quiescent([]iface.Store{v}, nil)
+	}, []iface.Store{v}, nil, claimTimeout); err != nil {
+		if err == world.ErrInconclusive {
+			o.Inconclusive = true
+			return o
+		}
+		return fail("after the %s message %q: %v", c.Route, clip(msg), err)
+	}
+	// a new valid message afterwards on the same route must still be handled
 	if err := env.canary(ctx, c.Route); err != nil {
 		if err == world.ErrInconclusive {
 			o.Inconclusive = true
